@@ -818,7 +818,9 @@ func insertsInto(p *core.Program, g *ssa.Function, table string, depth int) bool
 				if op.Op == "Insert" && op.TableKnown && op.Table == table {
 					res = true
 				}
-				continue
+				if op.Op != "Commit" {
+					continue
+				}
 			}
 			if ci, ok := in.(ssa.CallInstruction); ok {
 				if h := ci.Common().StaticCallee(); h != nil && h.Pkg != nil && core.IsConsul(h.Pkg.Pkg.Path()) {
